@@ -17,7 +17,7 @@ import (
 func init() {
 	register(&propDef{
 		ID:          "C03",
-		Explanation: "Decides that the escaping tables and the routing into them are complete and correctly selected — not the behaviour of a JavaScript engine on the output: R1 the replacement tables applied inside string literals (the per-call table, the low-unicode table and the explicit switch arms of the escaper, all constant-evaluated from the source) map every code point of the required set — U+0000–U+001F, \" ' ` \\, < > &, / (a value starting with /script after a literal < in the author's own script text would otherwise end the element), U+2028, U+2029 and $ (the template-literal interpolation opener, because backtick literals use the same escaper) — to a replacement that does not contain the code point and is an escape of that same code point; R2 no non-test code in the module calls SetEscapeHTML, so every JSON encoder feeding a script position keeps encoding/json's HTML-safe escaping; R3 in SafeScript/SafeScriptInline the function name is used only after the name-pattern test replaced invalid names by a constant, the pattern's alphabet is within [$_a-zA-Z0-9.], every argument is written as jsonEncodeParam(arg) (and through the HTML escaper for the attribute form), JSFuncCall uses SafeScript and JSUnsafeFuncCall HTML-escapes its call; R4 the generator emits the in-literal escaper exactly on the branch where the script content is marked InsideStringLiteral, the sink writes the variable defined by that call, and the parser passes `delimiter != none` as that mark with the three JS quote characters as delimiters, and the script character reader has an alternative `\\`+any rune ahead of its catch-all (a backslash and the next character are one unit, so an escaped delimiter does not end the literal in the parser's view); R5 in the runtime selector both in-literal returns go through the replacement table and the bare return is the JSON encoding. NOT decided: that evaluating the emitted JavaScript yields an equal value; the parser's quote tracking on arbitrary JS (regex literals, comments in strings).",
+		Explanation: "Decides that the escaping tables and the routing into them are complete and correctly selected — not the behaviour of a JavaScript engine on the output: R1 the replacement tables applied inside string literals (the per-call table, the low-unicode table and the explicit switch arms of the escaper, all constant-evaluated from the source) map every code point of the required set — U+0000–U+001F, \" ' ` \\, < > &, / (a value starting with /script after a literal < in the author's own script text would otherwise end the element), U+2028, U+2029 and $ (the template-literal interpolation opener, because backtick literals use the same escaper) — to a replacement that does not contain the code point and is an escape of that same code point; R2 no non-test code in the module calls SetEscapeHTML, so every JSON encoder feeding a script position keeps encoding/json's HTML-safe escaping; R3 in SafeScript/SafeScriptInline the function name is used only after the name-pattern test replaced invalid names by a constant, the pattern's alphabet is within [$_a-zA-Z0-9.], every argument is written as jsonEncodeParam(arg) (and through the HTML escaper for the attribute form), JSFuncCall uses SafeScript and JSUnsafeFuncCall HTML-escapes its call; R4 the generator emits the in-literal escaper exactly on the branch where the script content is marked InsideStringLiteral, the sink writes the variable defined by that call, and the parser passes `delimiter != none` as that mark with the three JS quote characters as delimiters, and the script character reader has an alternative `\\`+any rune ahead of its catch-all (a backslash and the next character are one unit, so an escaped delimiter does not end the literal in the parser's view); R5 in the runtime selector both in-literal returns go through the replacement table and the bare return is the JSON encoding. R6 in the JSON script element (the function that writes a constant `<script` opener and hands its data to a json.Encoder) every write is a constant, an HTML-escaped attribute value or that encoder's output, so no already-encoded value (json.RawMessage, string) bypasses encoding/json's escaping of < > & U+2028 U+2029. NOT decided: that evaluating the emitted JavaScript yields an equal value; the parser's quote tracking on arbitrary JS (regex literals, comments in strings).",
 		Assumptions: []string{"encoding/json escapes < > & U+2028 U+2029 unless SetEscapeHTML(false)", "a JS engine decodes \\uXXXX, \\t \\n \\f \\r \\\\ \\/ inside string and template literals to the named code point"},
 		Trusted:     []string{"go/types", "go/parser", "x/tools go/packages, go/ssa", "encoding/json", "regexp/syntax"},
 		Run:         runC03,
